@@ -10,6 +10,23 @@ BASE_NOTE = ('Trusted: Lean 4.33 kernel; axioms propext/Classical.choice/Quot.so
              'against the real code); floats idealised as exact rationals (deviation measured by the oracle pass).')
 
 CHECKS = {
+    'C01': dict(
+        text='Engine model (strategy layer, matching loops, both simulators over the accounts and candle-store models, user '
+             'strategy = arbitrary functions of the observable state) tied to the real engine by whole-session trace '
+             'correspondence; oracle: pairs of real runs with a common prefix and different tails must agree on every event '
+             'before the cut. The prefix theorems over the model are being added (see evidence.theorems).',
+        technique='Lean 4 engine model + whole-session correspondence with the real engine; paired-run prefix oracle',
+        ref='4 (C01)',
+        note='Until the prefix theorem is proved the claim rests on the model correspondence and the paired-run oracle.'),
+    'C02': dict(
+        text='Engine model of the per-minute and chunked matching loops (GENERATED split_candle / candle_includes_price / '
+             'gap normalisation inside) tied to the real engine by whole-session trace correspondence on volatile, gapping '
+             'candles with tight order ladders; oracle on real traces: fills inside the extended range of their minute, never '
+             'before submission / after cancel, no order left unfilled through a minute (chunk) that contained its price, MARKET '
+             'orders filled at submission.',
+        technique='Lean 4 engine model + whole-session correspondence; fill/missed-fill oracle on real traces',
+        ref='4 (C02)',
+        note='Matching theorems (no missed fill, first minute) are being added; see evidence.theorems.'),
     'C03': dict(
         text='Proof over the accounts model (mirrors FuturesExchange/Order/Position branch by branch, with the GENERATED '
              'estimate_PNL / estimate_average_price inside; tied by step-by-step correspondence with the real objects): one '
@@ -54,8 +71,9 @@ CHECKS = {
     'C08': dict(
         text='Proof over the definition of split_candle REGENERATED from the source on every run: it equals the cut of the '
              'continuous O-L-H-C / O-H-L-C path at the first visit of the price (full functional spec), hence valid parts, '
-             'O/H/L/C kept, parts meet at the price; for all rational candles and prices. Tie: translator + cross-check of the '
-             'generated definitions against the real functions + oracle on the real function (lattice-exhaustive and random).',
+             'O/H/L/C kept, parts meet at the price; for all rational candles and prices. The matching loop (sort + re-selection '
+             'on the remaining candle + reactions) is modelled in the engine model and tied to the real normal simulator by '
+             'whole-session trace correspondence; path oracle on real traces (fills of one minute lie in order on one path).',
         technique='Lean 4 theorem over py2lean-generated definition (ite_elim walk + grind); translator cross-check; lattice-exhaustive oracle',
         ref='4 (C08)'),
     'C09': dict(
